@@ -31,8 +31,9 @@
 
    Target values are the interpreter model's values (integers standing for integer-valued
    doubles, booleans, integer arrays).  Operations whose Fortran behaviour is not defined
-   (use of a variable without a value, subscript outside 0..n-1, operand of .and./.or. that
-   cannot be evaluated, failing user function, ill-typed operand) make the target result FUndef. *)
+   (use of a variable without a value, subscript outside 0..n-1, failing user function, ill-typed
+   operand; operands of .and./.or. count in Python's short-circuit order) make the target result
+   FUndef. *)
 From Coq Require Import List ZArith String Bool Arith.
 Import ListNotations.
 From Dagrt Require Import Lang Builder Sched.
@@ -183,9 +184,29 @@ Section Target.
                            (snd (eval F s (if cond_honoured then b else always_else b)))
         | _ => true
         end
-    | ENary NAnd l | ENary NOr l =>
+    (* .and. / .or.: an operand after the deciding one need not have a value.  A processor may still
+       read it; `false .and. x` is false whatever x holds.  dagrt's own nested guards rely on this:
+       `<cond> .and. <cond>_0` where <cond>_0 is assigned only when <cond> holds. *)
+    | ENary NAnd l =>
         (fix all (l : list expr) : bool :=
-           match l with [] => true | a :: r => defd s a && is_ok (snd (eval F s a)) && all r end) l
+           match l with
+           | [] => true
+           | a :: r => defd s a &&
+                       match rbind (snd (eval F s (if cond_honoured then a else always_else a)))
+                                   (fun v => lift (truth v)) with
+                       | Ok true => all r | Ok false => true | Err _ => false
+                       end
+           end) l
+    | ENary NOr l =>
+        (fix all (l : list expr) : bool :=
+           match l with
+           | [] => true
+           | a :: r => defd s a &&
+                       match rbind (snd (eval F s (if cond_honoured then a else always_else a)))
+                                   (fun v => lift (truth v)) with
+                       | Ok false => all r | Ok true => true | Err _ => false
+                       end
+           end) l
     | ENary _ l =>
         (fix all (l : list expr) : bool :=
            match l with [] => true | a :: r => defd s a && all r end) l
